@@ -114,6 +114,20 @@ class NsWorld(World):
         return {"db": sorted(rows, key=lambda r: r["name"]), "disk": sorted(disk)}
 
 
+def _childinfo(ext):
+    """("CHILDINFO" ("SUBSCRIBED")) among the extended data items of a LIST response"""
+    flat = []
+
+    def walk(x):
+        if isinstance(x, list):
+            for y in x:
+                walk(y)
+        elif isinstance(x, tuple) and len(x) >= 2 and isinstance(x[1], (bytes, bytearray)):
+            flat.append(bytes(x[1]).upper())
+    walk(ext)
+    return b"CHILDINFO" in flat and b"SUBSCRIBED" in flat
+
+
 def listed_of(items, kind):
     out, seen, dup = [], set(), False
     for d in items:
@@ -122,7 +136,7 @@ def listed_of(items, kind):
                 dup = True
             seen.add(d["name"])
             out.append({"name": chars(d["name"]), "nosel": "\\Noselect" in d["attrs"],
-                        "subscribed": "\\Subscribed" in d["attrs"],
+                        "subscribed": "\\Subscribed" in d["attrs"], "childinfo": _childinfo(d.get("ext", [])),
                         "haschildren": "\\HasChildren" in d["attrs"],
                         "hasnochildren": "\\HasNoChildren" in d["attrs"]})
     return out, dup
@@ -166,7 +180,7 @@ async def run_history(w: NsWorld, steps, events):
                 ptxt = b"(" + b" ".join(render_name(unchars(p)) for p in pats) + b")"
             else:
                 ptxt = render_name(unchars(pats[0]))
-            cmd = (b"LSUB " if act == "Lsub" else b"LIST ") + (b"(SUBSCRIBED) " if ev["sel"] == "SUBSCRIBED" else b"") + \
+            cmd = (b"LSUB " if act == "Lsub" else b"LIST ") + ((b"(" + ev["sel"].encode() + b") ") if ev["sel"] else b"") + \
                 render_name(unchars(st["ref"])) + b" " + ptxt + (b" RETURN (SUBSCRIBED)" if ev["ret"] == "SUBSCRIBED" else b"")
         res = await w.cmd("A", cmd, settle=0.02)
         ev["status"] = res.status if res.status in ("OK", "NO", "BAD") else "NONE"
